@@ -174,4 +174,151 @@ theorem OnlineIface.tickPhase (I : OnlineIface P core cfg S) (hc : cfg.Ok) {now0
     · rw [h2]; simp [List.map_map, Function.comp_def, OnlineIface.pkt]
     · simpa [List.map_map, Function.comp_def, Dg.fl] using hps
 
+/-! ## deliveries to one endpoint -/
+
+/-- deliver one packet to an endpoint at time `now` -/
+def recvEnd (now : Nat) (alt : P.Alt) (e : End P) (pk : P.Packet) : Option (End P) :=
+  match P.recv now [] e.conn pk alt with
+  | .ok r => some (e.book r [])
+  | .error _ => none
+
+def recvEnds (now : Nat) (alt : P.Alt) : End P → List P.Packet → Option (End P)
+  | e, [] => some e
+  | e, pk :: pks =>
+    match recvEnd now alt e pk with
+    | none => none
+    | some e1 => recvEnds now alt e1 pks
+
+theorem World.get_set_same (w : World P) (s : Side) (e : End P) : (w.set s e).get s = e := by
+  cases s <;> rfl
+theorem World.get_set_other (w : World P) (s : Side) (e : End P) : (w.set s e).get s.other = w.get s.other := by
+  cases s <;> rfl
+theorem World.set_set (w : World P) (s : Side) (e e' : End P) : (w.set s e).set s e' = w.set s e' := by
+  cases s <;> rfl
+theorem World.set_now (w : World P) (s : Side) (e : End P) : (w.set s e).now = w.now := by
+  cases s <;> rfl
+theorem World.set_get (w : World P) (s : Side) : w.set s (w.get s) = w := by
+  cases s <;> rfl
+
+/-- delivering the datagrams at indices `old.length …` of the peer's history, in order -/
+theorem run_deliverRange (to : Side) (alt : P.Alt) : ∀ (pks : List P.Packet) (stamps : List (Nat × Nat))
+    (old rest : List (Sent P.Packet)) (w : World P),
+    stamps.length = pks.length →
+    (w.get to.other).out = old ++ (pks.zip stamps).map (fun x => ⟨x.1, x.2.1, x.2.2⟩) ++ rest →
+    run w ((List.range' old.length pks.length).map fun i => Move.deliver to i [] alt) =
+      (recvEnds w.now alt (w.get to) pks).map (w.set to) := by
+  intro pks
+  induction pks with
+  | nil =>
+    intro stamps old rest w _ _
+    simp [run, recvEnds, World.set_get]
+  | cons pk pks ih =>
+    intro stamps old rest w hl hout
+    cases stamps with
+    | nil => simp at hl
+    | cons st stamps =>
+      have hidx : (w.get to.other).out[old.length]? = some ⟨pk, st.1, st.2⟩ := by
+        rw [hout, List.append_assoc, List.getElem?_append_right (Nat.le_refl _)]; simp
+      simp only [List.length_cons, List.range'_succ, List.map_cons, run, step, hidx, recvEnds, recvEnd]
+      cases hr : P.recv w.now [] (w.get to).conn pk alt with
+      | error e => rfl
+      | ok r =>
+        simp only
+        have := ih stamps (old ++ [⟨pk, st.1, st.2⟩]) rest (w.set to ((w.get to).book r []))
+          (by simpa using hl) (by rw [World.get_set_other, hout]; simp)
+        simp only [List.length_append, List.length_singleton] at this
+        rw [this, World.get_set_same, World.set_now]
+        cases recvEnds w.now alt ((w.get to).book r []) pks with
+        | none => rfl
+        | some e' => simp [World.set_set]
+
+theorem h2_fresh {cfg : Cfg} {e peer : End P} (h : AInv cfg (absEnd P core e) (absEnd P core peer))
+    {dg : Sent P.Packet} (hdg : dg ∈ peer.out) (hn : dg.nStamp = peer.nAbs) (hd : e.nAbs ≤ dg.dStamp + 512) :
+    ∀ ack cs, P.view dg.pkt = some (ack, cs) → e.nAbs < unwrap dg.dStamp ack + 1024 ∧
+      ∀ c ∈ cs, ∀ s r', c.vital = some (s, r') → e.dAbs + 1 < unwrap dg.nStamp s + 1024 := by
+  intro ack cs hv
+  have hm := mem_absEnd_out (core := core) hdg hv
+  have ha := h.1.acks _ hm
+  have hn' := h.2.net _ hm
+  dsimp only [AEnt.fl] at ha hn'
+  obtain ⟨a1, _⟩ := ha
+  obtain ⟨n1, n2, _⟩ := hn'
+  have hpn : (absEnd P core peer).sub.length = peer.nAbs := rfl
+  refine ⟨?_, ?_⟩
+  · rw [unwrap_eq (Nat.le_refl _) (by omega) a1]; omega
+  · intro c hcm s r' hvit
+    obtain ⟨k, k1, k2, k3⟩ := n2 c hcm s r' hvit
+    rw [unwrap_eq (q := k + 1) (by omega) (by omega) k3.2]
+    have hdle := h.2.dle
+    have : e.dAbs ≤ peer.nAbs := hdle
+    omega
+
+theorem entry_ok {cfg : Cfg} {e peer : End P} (h : AInv cfg (absEnd P core e) (absEnd P core peer))
+    {dg : Sent P.Packet} (hdg : dg ∈ peer.out) {ack : Nat} {cs : List Chunk} (hv : P.view dg.pkt = some (ack, cs)) :
+    ack < seqMod ∧ chunksSeqOk cs = true := by
+  have hm := mem_absEnd_out (core := core) hdg hv
+  have ha := h.1.acks _ hm
+  have hn' := h.2.net _ hm
+  dsimp only [AEnt.fl] at ha hn'
+  obtain ⟨a1, _⟩ := ha
+  obtain ⟨_, n2, _⟩ := hn'
+  refine ⟨by rw [a1, seqMod_eq]; omega, ?_⟩
+  simp only [chunksSeqOk, List.all_eq_true]
+  intro c hcm
+  cases hvit : c.vital with
+  | none => rfl
+  | some v =>
+    obtain ⟨sq, r⟩ := v
+    obtain ⟨k, _, _, hk⟩ := n2 c hcm sq r hvit
+    simp only [decide_eq_true_eq]
+    rw [hk.2, seqMod_eq]; omega
+
+theorem book_nAbs (e : End P) (r : Ret P.Conn P.Packet) : (e.book r []).nAbs = e.nAbs := by
+  simp [End.book, End.nAbs, End.submittedVital]
+
+theorem book_dAbs_le (e : End P) (r : Ret P.Conn P.Packet) (sub : List (Bytes × Bool)) : e.dAbs ≤ (e.book r sub).dAbs := by
+  simp [End.book, End.dAbs, End.deliveredVital, vitalPayloads_append]
+
+/-- **a block of deliveries** to an online endpoint `e` of datagrams of the online peer's history
+that were stamped with the peer's present submission count (no submission since) -/
+theorem OnlineIface.block (I : OnlineIface P core cfg S) (hc : cfg.Ok) (hs : Sim P core cfg) (hl : LocT P S)
+    {now : Nat} {tx ty : I.Tok} (hp : I.peer tx ty) (alt : P.Alt) (peer : End P) :
+    ∀ (dgs : List Dg) (stamps : List (Nat × Nat)) (e : End P) (o : Online) (s : Timeout),
+      e.conn = I.mkc ty o s → stamps.length = dgs.length →
+      (∀ x ∈ (dgs.map (I.pkt tx)).zip stamps, (⟨x.1, x.2.1, x.2.2⟩ : Sent P.Packet) ∈ peer.out ∧
+        x.2.1 = peer.nAbs ∧ e.nAbs ≤ x.2.2 + 512) →
+      AInv cfg (absEnd P core e) (absEnd P core peer) → S now e.conn →
+      ∃ e' o' s', recvEnds now alt e (dgs.map (I.pkt tx)) = some e' ∧ e'.conn = I.mkc ty o' s' ∧
+        RecvListRel cfg o (dgs.map Dg.fl) o' ∧ AInv cfg (absEnd P core e') (absEnd P core peer) ∧
+        S now e'.conn ∧ e'.nAbs = e.nAbs ∧ e'.submitted = e.submitted ∧ e.dAbs ≤ e'.dAbs := by
+  intro dgs
+  induction dgs with
+  | nil =>
+    intro stamps e o s he _ _ h hS
+    exact ⟨e, o, s, rfl, he, .nil o, h, hS, rfl, rfl, Nat.le_refl _⟩
+  | cons d dgs ih =>
+    intro stamps e o s he hlen hst h hS
+    cases stamps with
+    | nil => simp at hlen
+    | cons st stamps =>
+      obtain ⟨hmem, hn, hd⟩ := hst (I.pkt tx d, st) (by simp)
+      have hview := I.view_pkt tx d
+      have hinv : o.Inv cfg := (h.1.snd o (by simp [absEnd, he, I.core_mk])).inv
+      obtain ⟨hack, hseq⟩ := entry_ok (core := core) h hmem hview
+      obtain ⟨o2, s2, r, hr, hrc, hrel⟩ := I.recv_dg hc (now := now) (draws := []) (s := s) d alt hp hinv hack hseq
+      rw [← he] at hr
+      have h' := hs.recv now [] e peer _ alt r hmem hr h (h2_fresh (core := core) h hmem hn hd)
+      have hS' := hl.recv now [] e.conn _ alt r hr hS
+      obtain ⟨e', o', s', f1, f2, f3, f4, f5, f6, f7, f8⟩ := ih stamps (e.book r []) o2 s2 hrc
+        (by simpa using hlen)
+        (by
+          intro x hx
+          obtain ⟨a, b, c⟩ := hst x (by simp only [List.map_cons, List.zip_cons_cons]; exact List.mem_cons_of_mem _ hx)
+          exact ⟨a, b, by rw [book_nAbs]; exact c⟩)
+        h' hS'
+      refine ⟨e', o', s', ?_, f2, .cons hrel f3, f4, f5, by rw [f6, book_nAbs], by rw [f7]; simp [End.book],
+        Nat.le_trans (book_dAbs_le e r []) f8⟩
+      simp only [List.map_cons, recvEnds, recvEnd, hr]
+      exact f1
+
 end Tw.NetSim
